@@ -453,13 +453,19 @@ func run(c *hx.Ctx) error {
 		fmt.Sscan(n, &k)
 		return programStream(c, k, 0)
 	}
+	if n := os.Getenv("C01_DEV_COND"); n != "" {
+		// development aid: only the condition stream
+		k := 0
+		fmt.Sscan(n, &k)
+		return conditionStream(c, k, os.Getenv("C01_DEV_NOGC") == "")
+	}
 	if n := os.Getenv("C01_DEV_COMPILE"); n != "" {
 		// development aid: only the compile stream
 		k := 0
 		fmt.Sscan(n, &k)
 		return compileStream(c, &world{c: c}, k, false)
 	}
-	res.Rule = "stream 1: every binary/unary/shift/comparison/conversion operator × every integer kind × boundary-rich operand pairs (extremes, 0, ±1, 2^k±1, random), one tiny program each, three-way: Scriggo / generated VM term / Spec; stream 2: random typed expression trees of depth ≤ 4 over variables (local, parameter, package-level) and typed constants at every width, shifts with counts of every kind (small, ≥ width, huge; negative ones in their own sub-stream), division by zero under recover(); stream 5 (compile): trees of the same generator (no negative counts) as `func e(v0 T0, …) { r := <expr>; println(r) }`, the disassembled code of `r := <expr>` against the emitter model of Model/Compile.lean line by line with the same register numbers, and the outcome against the model VM running the model's code; a case is non-trivial when it contains at least one operator applied to a variable; distinct by protocol line"
+	res.Rule = "stream 1: every binary/unary/shift/comparison/conversion operator × every integer kind × boundary-rich operand pairs (extremes, 0, ±1, 2^k±1, random), one tiny program each, three-way: Scriggo / generated VM term / Spec; stream 2: random typed expression trees of depth ≤ 4 over variables (local, parameter, package-level) and typed constants at every width, shifts with counts of every kind (small, ≥ width, huge; negative ones in their own sub-stream), division by zero under recover(); stream 5 (compile): trees of the same generator (no negative counts) as `func e(v0 T0, …) { r := <expr>; println(r) }`, the disassembled code of `r := <expr>` against the emitter model of Model/Compile.lean line by line with the same register numbers, and the outcome against the model VM running the model's code; stream 6 (conditions): boolean expressions of every shape emitCondition distinguishes (len of a string on either side × six operators × variable/constant/expression operand, integer comparisons at every kind, comparison with 0, nil, strings, floats, bools, constants, negations) with operand values at and next to the boundary, in if / if-else / for / switch case / switch tag / && / || / ! / value contexts, against the generator's own expectation, gc, and (shapes of Model/CompileCond.lean) the model's code and VM; a case is non-trivial when it contains at least one operator applied to a variable; distinct by protocol line"
 	w := &world{c: c}
 
 	// known findings: replay the recorded minimal on the real code first
@@ -742,6 +748,10 @@ func run(c *hx.Ctx) error {
 	}
 	// ---- stream 5: the emitter model against the real emitter, instruction by instruction
 	if err := compileStream(c, w, c.N(3000, 30000), uintptrNotOK); err != nil {
+		return err
+	}
+	// ---- stream 6: conditions (emitCondition) at and around the boundaries, gc as oracle
+	if err := conditionStream(c, c.N(2000, 10000), true); err != nil {
 		return err
 	}
 	res.Histogram["scriggo-builds"] = w.builds
